@@ -136,7 +136,8 @@ def same_change(a: nx.Graph, b: nx.Graph) -> bool:
 
 def centre_carries_all_changes(rsmi: str) -> bool:
     """precondition for centre templates: every atom whose charge or hydrogen count changes is on a changed bond"""
-    g = fold_h(rd_its(rsmi))
+    # judged on the reaction as written: a hydrogen that is written as an atom makes its bonds part of the centre
+    g = rd_its(rsmi)
     c = change_graph_from_rd(g, fold=False)
     for v, d in g.nodes(data=True):
         l0, l1 = d["lab"]
